@@ -306,7 +306,9 @@ type c6place struct {
 
 const c6head = "module m { yang-version 1.1; namespace \"urn:m\"; prefix m;\n"
 
-func c6firstContainer(m *meta.Module) *meta.Container { return m.DataDefinitions()[0].(*meta.Container) }
+func c6firstContainer(m *meta.Module) *meta.Container {
+	return m.DataDefinitions()[0].(*meta.Container)
+}
 
 func c6places() []c6place {
 	inMod := func(stmt string) string { return c6head + " " + stmt + "\n}" }
@@ -388,7 +390,9 @@ func c6places() []c6place {
 			return leaf(m).Default(), true
 		}},
 		{name: "pattern", kw: "pattern", free: true,
-			wrap: func(stmt string) string { return c6head + " container c { leaf l { type string { " + stmt + " } } }\n}" },
+			wrap: func(stmt string) string {
+				return c6head + " container c { leaf l { type string { " + stmt + " } } }\n}"
+			},
 			read: func(m *meta.Module) (string, bool) {
 				if ps := leaf(m).Type().Patterns(); len(ps) == 1 {
 					return ps[0].Pattern, true
